@@ -7,8 +7,8 @@ from gen import extract_facts
 generate_facts = extract_facts.generate
 
 ID = "C08"
-LEAN_MODULES = ["Econf.Props.C08", "Econf.Props.Struct"]
-THEOREMS = ["Econf.C08_int32", "Econf.C08_int64", "Econf.C08_uint32", "Econf.C08_uint64", "Econf.C08_int32_object", "Econf.C08_uint64_object", "Econf.C08_text_form", "Econf.C08_bool", "Econf.Struct.C08_formats", "Econf.C08_text_is_54", "Econf.C08_through_file"]
+LEAN_MODULES = ["Econf.Props.C08", "Econf.Props.Struct", "Econf.Props.Tie"]
+THEOREMS = ["Econf.C08_int32", "Econf.C08_int64", "Econf.C08_uint32", "Econf.C08_uint64", "Econf.C08_int32_object", "Econf.C08_uint64_object", "Econf.C08_text_form", "Econf.C08_bool", "Econf.Struct.C08_formats", "Econf.C08_text_is_54", "Econf.C08_through_file", "Econf.Struct.tie_bool_words"]
 RULE = ("direct oracle on the library (harness/num.c): int32/uint32/float set->get over a slice (quick) or all 2^32 bit patterns "
         "(thorough); int64/uint64/double: every single-bit value and its neighbours, powers of ten +-1 (integers) and 10^k +-1ulp "
         "(doubles), limits, subnormals, infinities, NaNs, and pseudo-random values; set->write->read->get for all seven types incl. "
